@@ -71,6 +71,29 @@ pub fn c07<T: Elem + Copy>(out: &mut Vec<String>, chain: &[T]) {
     }
 }
 
+/// membership of values that are not on the chain of bounds (for floats: NaN, which belongs to no closed set,
+/// subnormals and the extremes of the range), through both views of the interval
+pub fn c07_probes<T: Elem + Copy>(out: &mut Vec<String>, chain: &[T], probes: &[T]) {
+    let t = T::TAG;
+    for i in &all_intervals(chain) {
+        for x in probes {
+            out.push(format!("C07 contains {} {} {} => {}", t, enc_interval(i), x.enc(), b(i.contains(x))));
+            let r = RangeBounds::contains(i, x);
+            let lo_ok = match i.start_bound() {
+                std::ops::Bound::Included(s) => s <= x,
+                std::ops::Bound::Excluded(s) => s < x,
+                std::ops::Bound::Unbounded => true,
+            };
+            let hi_ok = match i.end_bound() {
+                std::ops::Bound::Included(e) => x <= e,
+                std::ops::Bound::Excluded(e) => x < e,
+                std::ops::Bound::Unbounded => true,
+            };
+            out.push(format!("C07 rcontains {} {} {} => {} {}", t, enc_interval(i), x.enc(), b(r), b(lo_ok && hi_ok)));
+        }
+    }
+}
+
 fn ord_str(o: Option<std::cmp::Ordering>) -> &'static str {
     match o {
         Some(std::cmp::Ordering::Less) => "lt",
